@@ -7,7 +7,7 @@ TRUSTED = [
     "translate/sumfuns.py (funs table, rate_unit/mul_unit/div_unit, SegmentPressures::Value, is_total rules of SummaryState and SummaryConfig -> Gen/SumFuns.lean); "
     "it also refuses to run when rate<>, crate<>, crate_resv<>, cpr, ratel<>, cratel<>, segment_quantity, srate<>, segpress<>, region_rate<>, node_pressure, "
     "find_wells, find_region_wells, setFactors, struct quantity, update_*_var or parseKeywordType lose the modelled shape; cross-checked by the correspondence",
-    "harness/summary.cpp + lib/vlib.py differ; model driver (compiled Lean, Float = IEEE double)",
+    "harness/summary.cpp (deck generator incl. the per-step history of GRUPTREE / WELSPECS / COMPDAT changes, and property mode's own per-step tree `treeAt` built from the generated specification, not from the Schedule) + lib/vlib.py differ; model driver (compiled Lean, Float = IEEE double)",
     "out::RegionCache (the harness builds the real class to obtain the connections of a region), Well::getConnections / complnum (read from the real Schedule)",
     "modelled, not verified: funs entries that translate to `atom` (tracers, guide rates, potentials, productivity indices, control modes, aquifers, "
     "segment densities / velocities / holdup, filtrate, inter-region flows), UnitSystem conversion factors (passed in from the real UnitSystem; hard constants "
